@@ -81,6 +81,16 @@ type probeRes struct {
 	Labels []int  `json:"labels"` // lines of the allocation sites in the points-to set
 	Alias  []int  `json:"alias"`  // lines of the probes of the same static type whose points-to set intersects
 	Query  bool   `json:"query"`  // false: the operand has no points-to query
+	IQuery  bool  `json:"iquery"`  // the operand has an INDIRECT query (pointer to a pointer-like value)
+	ILabels []int `json:"ilabels"` // allocation sites in the points-to set of *operand
+}
+
+// iparamRes: the indirect query of a parameter of a user function (pointer to a pointer-like value)
+type iparamRes struct {
+	Prog    string `json:"prog"`
+	Decl    int    `json:"decl"`  // declaration line of the function
+	Idx     int    `json:"idx"`   // 1-based parameter position
+	ILabels []int  `json:"ilabels"`
 }
 
 type ptrRes struct {
@@ -88,6 +98,7 @@ type ptrRes struct {
 	Reach    []fnref            `json:"reach"`    // state.ReachableFunctions()
 	Resolve  []edge             `json:"resolve"`  // state.ResolveCallee at every call site of user functions
 	Probes   []probeRes         `json:"probes"`
+	IParams  []iparamRes        `json:"iparams"`
 	FindReach map[string][]fnref `json:"findreach"` // reachability.FindReachable for the four root selections
 	AllFuncs []fnref            `json:"allfuncs"`
 	Err      string             `json:"err"`
@@ -297,7 +308,7 @@ func isWrapper(f *ssa.Function) bool {
 }
 
 func runPointer(l loaded, cfgPath string) (res ptrRes) {
-	res = ptrRes{Edges: []edge{}, Reach: []fnref{}, Resolve: []edge{}, Probes: []probeRes{}, FindReach: map[string][]fnref{}, AllFuncs: []fnref{}}
+	res = ptrRes{Edges: []edge{}, Reach: []fnref{}, Resolve: []edge{}, Probes: []probeRes{}, IParams: []iparamRes{}, FindReach: map[string][]fnref{}, AllFuncs: []fnref{}}
 	start := time.Now()
 	defer func() {
 		res.Ms = time.Since(start).Milliseconds()
@@ -382,7 +393,7 @@ func runPointer(l loaded, cfgPath string) (res ptrRes) {
 					if mi, ok := v.(*ssa.MakeInterface); ok {
 						v = mi.X
 					}
-					res.Probes = append(res.Probes, probeRes{Prog: pname, Line: sp.Line, Type: v.Type().String(), Labels: []int{}, Alias: []int{}})
+					res.Probes = append(res.Probes, probeRes{Prog: pname, Line: sp.Line, Type: v.Type().String(), Labels: []int{}, Alias: []int{}, ILabels: []int{}})
 					probes = append(probes, pq{len(res.Probes) - 1, v})
 					continue
 				}
@@ -417,6 +428,29 @@ func runPointer(l loaded, cfgPath string) (res ptrRes) {
 					}
 					through(ci)
 				}
+			}
+		}
+	}
+	for _, p := range probes {
+		if iq, ok := state.PointerAnalysis.IndirectQueries[p.v]; ok {
+			res.Probes[p.idx].IQuery = true
+			for _, lab := range iq.PointsTo().Labels() {
+				res.Probes[p.idx].ILabels = append(res.Probes[p.idx].ILabels, l.prog.Fset.Position(lab.Pos()).Line)
+			}
+		}
+	}
+	for fn := range ssautil.AllFunctions(l.prog) {
+		if !isUser(fn) {
+			continue
+		}
+		for i, prm := range fn.Params {
+			if iq, ok := state.PointerAnalysis.IndirectQueries[prm]; ok {
+				pn, ln := fnPos(l.prog, fn)
+				r := iparamRes{Prog: pn, Decl: ln, Idx: i + 1, ILabels: []int{}}
+				for _, lab := range iq.PointsTo().Labels() {
+					r.ILabels = append(r.ILabels, l.prog.Fset.Position(lab.Pos()).Line)
+				}
+				res.IParams = append(res.IParams, r)
 			}
 		}
 	}
